@@ -804,7 +804,7 @@ func (c *Client) peekPacket() (head byte, err error) {
 		if b&0x80 == 0 {
 			break
 		}
-		if shift > 21 {
+		if shift >= 21 {
 			return 0, fmt.Errorf("%w: remaining length encoding from packet %#b exceeds 4 bytes", errProtoReset, head)
 		}
 	}
